@@ -214,6 +214,10 @@ def run(tier, seed):
         for sc, kinds in (("task", ["task"]), ("task_cancel", ["task"]), ("session", ["session"]), ("thread", ["session"]),
                           ("thread", ["continuity"])):
             ocases.append({"id": f"ovt-{sc}-{kinds[0]}-{rep}", "scenario": sc, "kinds": kinds, "wait_ms": 40})
+        # the sidecar line of a thread frame is delayed until a later frame's line is in the sidecar (possible only if
+        # the seq mutex no longer covers the sidecar append); then the authority restarts and the thread is appended to
+        for sc in ("thread", "thread3"):
+            ocases.append({"id": f"ovt-{sc}-sidecar-{rep}", "scenario": sc, "kinds": [], "wait_ms": 60, "delay_at": "cache.enter", "restart_append": True})
     ores = run_harness("overtake", ocases, wd, "overtake", shards=len(ocases), timeout=600)
     for res in ores:
         frames = res["summary"]["frames"]
@@ -296,6 +300,29 @@ def run(tier, seed):
         "interleavings are forced at the hook points log.pre / log.flushed / cache.exit / api.return; a schedule the real locks forbid is 'unrealised' (no verdict)",
         "two writers, one operation each per scheduled case; longer runs are covered by the free-running tier",
     ]
+    # ---- whole-system histories with every writer family on one log (provider runs with request dumps and text deltas, tool
+    # and checkpoint commands, tasks, continuity operations incl. branch / handoff / compaction): the log in file order,
+    # every stream, against the numbering guard of System.tla
+    from . import c03
+    from .. import suite
+    sc = c03.generated_scenarios(60 if thorough else 14, seed + 900)
+    for c in sc:
+        c["id"] = c["id"].replace("gen-", "num-")
+    hres = run_harness("fidelity", [{k: x for k, x in c.items() if not k.startswith("_")} for c in sc], wd, "num", shards=min(len(sc), 14), timeout=1800)
+    hflags, hr = suite.histories_flags(wd, hres, "numbering")
+    v.add_tlc(hr, f"SystemTrace (strict): {len(hres)} generated whole-system histories, every stream, numbering guard")
+    hby = {c["id"]: c for c in sc}
+    seen_h = set()
+    for hid, guard, ev in hflags:
+        if suite.GUARD_PROP.get(guard) != PROP or hid in seen_h:
+            continue
+        seen_h.add(hid)
+        c = hby[hid]
+        v.violation(f"history {hid} (steps {c.get('_names')}): {guard} is false at {ev}",
+                    {"engine": "numhist", "case": {k: x for k, x in c.items() if not k.startswith("_")}})
+    for res in hres:
+        v.add_eval({"numbering_history": res["id"]}, len(res["order"]) > 5)
+    v.cov["numbering_histories"] = {"histories": len(hres), "frames": sum(len(r_["order"]) for r_ in hres)}
     # unbounded in the number of frames: Apalache proves the inductive invariant of the numbering protocol (any log
     # length, three writers, crash anywhere) and refutes it when the mutex is dropped between choosing and writing
     ok1, w1, t1 = tlc.apalache_inductive("SeqLock", "ConstInit3")
@@ -329,6 +356,16 @@ def replay(path, seed):
         print(json.dumps({"gapfree": ok, "bad": bad, "replay_validated": res["summary"]["replay_validated"],
                           "steps": res["steps"]}, indent=1))
         if not ok or not res["summary"]["replay_validated"]:
+            print(f"VIOLATION property={PROP} replay={path}")
+            return 1
+        return 0
+    if case.get("engine") == "numhist":
+        from .. import suite
+        hres = run_harness("fidelity", [case["case"]], wd, "replay")
+        hflags, _ = suite.histories_flags(wd, hres, "numbering")
+        bad = [(h, g, e) for h, g, e in hflags if suite.GUARD_PROP.get(g) == PROP]
+        print(json.dumps({"flags": bad[:3]}))
+        if bad:
             print(f"VIOLATION property={PROP} replay={path}")
             return 1
         return 0
